@@ -83,7 +83,13 @@ def run(chk, tier):
     import moved
     nmv, movers_ = moved.run(chk, P, ["topology.c"])
     chk.floor("R-MOVED", "calls of content-moving functions", nmv, 2)
-    chk.decided += ['hwloc_topology_insert_group_object() never returns the emptied shell of a Group whose contents were moved into an existing one',
+    chk.rule("R-PUTBACK", "hwloc___insert_object_by_cpuset(): every field of a child that is rewritten in the block that moves the child below the new object is stored again by the put-back section "
+             "(the blocks from which no successful return is reachable): a failed insertion leaves no child pointing at the rejected object, which the caller frees")
+    import putback
+    npb = putback.run(chk, P)
+    chk.floor("R-PUTBACK", "adopted-child fields", npb, 2)
+    chk.decided += ['a failed insertion gives every adopted child back completely (parent and sibling links restored by the put-back path)',
+                    'hwloc_topology_insert_group_object() never returns the emptied shell of a Group whose contents were moved into an existing one',
                     'parallel arrays of a distances structure are compacted together before its count is lowered',
                     'an object removed from the tree is freed only after each of its non-empty child lists was handed on',
                     "compaction of targets/initiators after a refresh copies the surviving entry down, never the dropped one over it",
